@@ -30,20 +30,32 @@ def gen_program(rng):
         messages = {s: "msg %d of t%d" % (s, t) for s in range(nslots) if rng.random() < 0.4}
         end, state, m = testgen.expected_outcome(body, conds)
         name = "t%d" % t
-        lines.append('.test "%s" {' % name)
-        base = len(lines)
         blines, where = testgen.render_body(body, conds, messages)
         if two_banks and rng.random() < 0.7:
             # the other bank's bytes must not be visible: RAM holds only the bank of the test
             k = blines.index("    brk")
             blines.insert(k, "    .assert ram($4000) == 0 && ram16($4001) == 0")
             where = {s: (l + 1 if l >= k else l) for s, l in where.items()}
-        lines.extend(blines)
+        k = blines.index("    brk")
+        absolute = {}
+        if len(blines) > k + 1 and rng.random() < 0.3:
+            # the subroutines in front of the test instead of behind its BRK: their assertions are emitted before the test is
+            base_subs = len(lines)
+            lines.extend(blines[k + 1:])
+            lines.append('.test "%s" {' % name)
+            base = len(lines)
+            lines.extend(blines[:k + 1])
+            absolute = {s: (base + l if l <= k else base_subs + l - (k + 1)) for s, l in where.items()}
+        else:
+            lines.append('.test "%s" {' % name)
+            base = len(lines)
+            lines.extend(blines)
+            absolute = {s: base + l for s, l in where.items()}
         lines.append("}")
         exp = {"name": name, "pass": end[0] == "brk", "end": end}
         if end[0] == "assert-failed":
             s = end[1]
-            line = base + where[s]
+            line = absolute[s]
             text = lines[line]
             exp["line"] = line + 1
             exp["col"] = text.index(".assert ") + len(".assert ") + 1
